@@ -158,6 +158,26 @@ Theorem C15_meta_no_exit_refuted :
 Proof. exact meta_no_exit_refuted. Qed.
 Print Assumptions C15_meta_no_exit_refuted.
 
+(* ---- after the shortcut declined: recomputed note or copy of the original? ---- *)
+(* (facts GenRemap.replay_payload_counts_prompts_{rebase,cherry}: prompt records count as payload) *)
+Theorem C15_replay_copy_only_when_empty :
+  forall fb a p rec orig new w,
+    (replay_write_rebase_gen true fb a p rec orig new = Some w \/
+     replay_write_cherry_gen true fb a p rec orig new = Some w) ->
+    w <> rec ->
+    a = false /\ p = false /\ exists raw, orig = Some raw /\ w = remap_note fb raw new.
+Proof. exact replay_copy_only_when_empty. Qed.
+Print Assumptions C15_replay_copy_only_when_empty.
+
+Theorem C15_replay_narrow_refuted :
+  forall fb rec raw new,
+    replay_write_rebase_gen false fb false true rec (Some raw) new = Some (remap_note fb raw new) /\
+    replay_write_cherry_gen false fb false true rec (Some raw) new = Some (remap_note fb raw new) /\
+    replay_write_rebase_gen true fb false true rec (Some raw) new = Some rec /\
+    replay_write_cherry_gen true fb false true rec (Some raw) new = Some rec.
+Proof. exact replay_narrow_refuted. Qed.
+Print Assumptions C15_replay_narrow_refuted.
+
 (* non-vacuity: a realistic note (quoted path, a prompt whose text mentions the marker) meets
    wf_note and is rewritten as intended; the note of a file whose NAME contains the marker text
    fails wf_note, meets has_base_field and is rewritten correctly by the repaired shape; a printed
